@@ -212,6 +212,10 @@ def _red_sum(a, b):
     return a + b
 
 
+def _red_min(a, b):
+    return b if b < a else a
+
+
 def _red_max(a, b):
     return a if a >= b else b
 
@@ -531,7 +535,7 @@ def apply_op(solver, rec, op, k, case_tag):
         if op["red"] == "sumsq":
             solver.SetReducer(_red_sumsq, arraylike=True)
         else:
-            solver.SetReducer({None: None, "sum": _red_sum, "max": _red_max}[op["red"]])
+            solver.SetReducer({None: None, "sum": _red_sum, "max": _red_max, "min": _red_min}[op["red"]])
     elif o == "SetLimits":
         solver.SetEvaluationLimits(op["g"], op["e"], new=op["new"])
     elif o == "SetTermination":
@@ -769,7 +773,7 @@ def script_coq(case, out):
                 ops.append("@OSetStrictRanges NumF _ %s" % box)
             tight_on = now_tight
         elif o == "SetReducer":
-            ops.append("@OSetReducer NumF _ %s" % {None: "None", "sum": "(Some red_sum)", "max": "(Some red_max)", "sumsq": "(Some red_sumsq)"}[op["red"]])
+            ops.append("@OSetReducer NumF _ %s" % {None: "None", "sum": "(Some red_sum)", "max": "(Some red_max)", "sumsq": "(Some red_sumsq)", "min": "(Some red_min)"}[op["red"]])
         elif o == "SetLimits":
             ops.append("@OSetLimits NumF _ %s %s %s" % (opt(op["g"], zlit), opt(op["e"], zlit), blit(op["new"])))
         elif o == "SetTermination":
